@@ -132,6 +132,16 @@ async fn on_flush(
     let passive = ctx.passive_buffers.add_from(&ctx.memtable).await;
     let flushed_mem = std::mem::replace(&mut ctx.memtable, MemTable::new(capacity));
 
+    // A manual flush cuts the memtable in the middle of a WAL log: start a new log so that the
+    // flushed events end at a log boundary, and prune only below it.
+    if let Some(wal) = &ctx.wal {
+        if let Some(keep_from) = wal.rotate().await {
+            ctx.segment_lifecycle
+                .set_wal_cutoff(segment_id, keep_from)
+                .await;
+        }
+    }
+
     // Use the existing flush manager from context
     info!(target: LOG_TARGET, shard_id = ctx.id, "Queueing memtable for flush");
     let (completion_tx, completion_rx) = oneshot::channel();
